@@ -343,13 +343,34 @@ func c08SuccessReturns(w *an.World, fn *ssa.Function) []*ssa.Return {
 	return out
 }
 
+func c08IsPrimitiveName(n string) bool {
+	for suf := range c08Primitives {
+		if strings.HasSuffix(n, suf) {
+			return true
+		}
+	}
+	return false
+}
+
+// c08PrimitiveCalls: calls of fn that broadcast — a primitive of the frozen
+// table, or an in-module static callee that reaches one synchronously (a
+// wrapper around the primitive); the wrapper call then stands for the
+// primitive (its arguments are what is handed over, its result what comes back).
 func c08PrimitiveCalls(w *an.World, fn *ssa.Function) []ssa.CallInstruction {
 	var out []ssa.CallInstruction
 	for _, c := range an.Calls(fn) {
-		n := w.Info(c).Name
-		for suf := range c08Primitives {
-			if strings.HasSuffix(n, suf) {
+		ci := w.Info(c)
+		if c08IsPrimitiveName(ci.Name) {
+			out = append(out, c)
+			continue
+		}
+		if ci.Static == nil || !w.InModule(ci.Static) || ci.Static.Blocks == nil || ci.Static == fn || ci.IsGo {
+			continue
+		}
+		for _, ef := range w.Summary(ci.Static).Effects {
+			if c08IsPrimitiveName(ef.Name) && len(ef.Chain) <= 2 {
 				out = append(out, c)
+				break
 			}
 		}
 	}
@@ -854,67 +875,124 @@ func c08Message(c *an.Check) {
 		if len(opens) == 0 {
 			continue
 		}
-		// message literals of this function that are marshalled
-		var msgs []*ssa.Alloc
-		for _, b := range fn.Blocks {
-			for _, in := range b.Instrs {
-				al, ok := in.(*ssa.Alloc)
-				if !ok {
-					continue
-				}
-				nt := an.NamedOf(al.Type())
-				if nt == nil || nt.Obj().Name() != "OpeningTxBroadcastedMessage" {
-					continue
-				}
-				msgs = append(msgs, al)
+		fname := w.FuncName(fn)
+		// the announcement of this function: what is marshalled for the peer or stored as the swap's OpeningTxBroadcasted
+		isMsg := func(v ssa.Value) bool {
+			nt := an.NamedOf(v.Type())
+			return nt != nil && nt.Obj().Name() == "OpeningTxBroadcastedMessage"
+		}
+		seenCand := map[ssa.Value]bool{}
+		var cands []ssa.Value
+		addCand := func(v ssa.Value) {
+			v = c08Strip(v)
+			if isMsg(v) && !seenCand[v] {
+				seenCand[v] = true
+				cands = append(cands, v)
 			}
 		}
-		fname := w.FuncName(fn)
-		if len(msgs) == 0 {
-			c.Unknown("C08.R1", fname+" message literal", w.Pos(fn.Pos()), "the function calls Wallet.CreateOpeningTransaction but builds no OpeningTxBroadcastedMessage literal; the message is assembled in a shape this rule does not follow")
+		for _, cc := range an.Calls(fn) {
+			if w.Info(cc).Name == "func:swap.MarshalPeerswapMessage" {
+				for _, a := range cc.Common().Args {
+					addCand(a)
+				}
+			}
+		}
+		for _, st := range w.FieldWriters("SwapData.OpeningTxBroadcasted") {
+			if st.Parent() == fn {
+				addCand(st.Val)
+			}
+		}
+		if len(cands) == 0 {
+			c.Unknown("C08.R1", fname+" message literal", w.Pos(fn.Pos()), "the function calls Wallet.CreateOpeningTransaction but neither marshals nor stores an OpeningTxBroadcastedMessage itself; the message is assembled in a shape this rule does not follow")
 			continue
 		}
-		for _, msg := range msgs {
-			n++
-			pos := w.Pos(msg.Pos())
-			// is this literal the one that is sent (marshalled or stored as the swap's announcement)?
-			sent := false
-			for _, cc := range an.Calls(fn) {
-				if w.Info(cc).Name == "func:swap.MarshalPeerswapMessage" && c08Slice(cc.Common().Args...)[msg] {
-					sent = true
+		for _, cand := range cands {
+			// field(name) -> the value, as seen in this function, that ends up in the field
+			var field func(name string) (ssa.Value, string)
+			pos := "-"
+			switch m := cand.(type) {
+			case *ssa.Alloc:
+				pos = w.Pos(m.Pos())
+				field = func(name string) (ssa.Value, string) {
+					v, ok := an.CompositeFieldValue(m, name)
+					if !ok {
+						return nil, "unset"
+					}
+					return v, ""
 				}
-			}
-			for _, st := range w.FieldWriters("SwapData.OpeningTxBroadcasted") {
-				if st.Parent() == fn && c08Strip(st.Val) == ssa.Value(msg) {
-					sent = true
+			case *ssa.Call:
+				pos = w.Pos(m.Pos())
+				g := m.Call.StaticCallee()
+				if g == nil || !w.InModule(g) || g.Blocks == nil {
+					c.Unknown("C08.R1", fname+" message literal", pos, "the message comes from "+w.Info(m).Name+", which cannot be looked into")
+					continue
 				}
-			}
-			if !sent {
-				c.Note("C08.R1", fname+" unsent message literal", pos, "literal is neither marshalled nor stored; ignored")
+				// constructor: every return is a literal whose fields are parameters of g
+				field = func(name string) (ssa.Value, string) {
+					var res ssa.Value
+					for _, r := range an.Returns(g) {
+						al, ok := c08Strip(r.Results[0]).(*ssa.Alloc)
+						if !ok {
+							return nil, "the constructor " + w.FuncName(g) + " does not return a literal"
+						}
+						v, ok := an.CompositeFieldValue(al, name)
+						if !ok {
+							return nil, "unset"
+						}
+						pv, ok := c08Strip(v).(*ssa.Parameter)
+						if !ok {
+							return nil, "the constructor " + w.FuncName(g) + " computes " + name + " itself (" + w.Term(v) + ")"
+						}
+						idx := -1
+						for i, p := range g.Params {
+							if p == pv {
+								idx = i
+							}
+						}
+						if idx < 0 || idx >= len(m.Call.Args) {
+							return nil, "parameter mismatch in " + w.FuncName(g)
+						}
+						if res != nil && res != m.Call.Args[idx] {
+							return nil, "the constructor " + w.FuncName(g) + " fills " + name + " from different parameters on different returns"
+						}
+						res = m.Call.Args[idx]
+					}
+					if res == nil {
+						return nil, "the constructor " + w.FuncName(g) + " has no return"
+					}
+					return res, ""
+				}
+			default:
+				c.Unknown("C08.R1", fname+" message literal", w.Pos(fn.Pos()), fmt.Sprintf("the announced message is a %T, not a literal or a constructor call", cand))
 				continue
 			}
-			field := func(name string) ssa.Value {
-				v, ok := an.CompositeFieldValue(msg, name)
-				if !ok {
-					return nil
-				}
-				return v
-			}
+			n++
 			// R1 / R2 message side
 			var open *ssa.Call
-			for rule, spec := range map[string]struct {
-				f   string
-				idx int
-			}{"C08.R1": {"TxId", c08ResTxid}, "C08.R2": {"ScriptOut", c08ResVout}} {
+			for _, spec := range []struct {
+				rule, f string
+				idx     int
+			}{{"C08.R1", "TxId", c08ResTxid}, {"C08.R2", "ScriptOut", c08ResVout}} {
+				rule := spec.rule
 				cons := fname + " message." + spec.f
-				v := field(spec.f)
-				if v == nil {
+				v, st := field(spec.f)
+				if st == "unset" {
 					c.Bad(rule, cons, pos, "the message literal leaves "+spec.f+" unset (zero value is announced)")
+					continue
+				}
+				if v == nil {
+					c.Unknown(rule, cons, pos, st)
 					continue
 				}
 				ss := w.Sources(v, an.FlowOpts{})
 				good := len(ss.Leaves) > 0
+				opaque := false
 				for _, l := range ss.Leaves {
+					switch l.Kind {
+					case "call", "const", "zero", "field", "alloc":
+					default:
+						opaque = true
+					}
 					if l.Kind != "call" || l.Call == nil || w.Info(l.Call).Name != fxOpenTx || l.Idx != spec.idx {
 						good = false
 					} else if open == nil {
@@ -923,12 +1001,19 @@ func c08Message(c *an.Check) {
 						good = false
 					}
 				}
-				c.Decide(good, rule, cons, pos,
-					fmt.Sprintf("%s is result #%d of Wallet.CreateOpeningTransaction", spec.f, spec.idx),
-					fmt.Sprintf("%s must be result #%d of the wallet call that broadcast the transaction but flows from %v", spec.f, spec.idx, ss.Names()))
+				switch {
+				case good:
+					c.OK(rule, cons, pos, fmt.Sprintf("%s is result #%d of Wallet.CreateOpeningTransaction", spec.f, spec.idx))
+				case opaque || len(ss.Leaves) == 0:
+					c.Unknown(rule, cons, pos, fmt.Sprintf("cannot follow %s back to the wallet call: %v", spec.f, ss.Names()))
+				default:
+					c.Bad(rule, cons, pos, fmt.Sprintf("%s must be result #%d of the wallet call that broadcast the transaction but flows from %v", spec.f, spec.idx, ss.Names()))
+				}
 			}
-			c08Payreq(c, fn, msg, field("Payreq"), open, opens)
-			c08Blinding(c, fn, msg, field("BlindingKey"), open, opens)
+			pv, pst := field("Payreq")
+			c08Payreq(c, fn, pos, pv, pst, open, opens)
+			bv, bst := field("BlindingKey")
+			c08Blinding(c, fn, pos, bv, bst, open, opens)
 		}
 	}
 	c.AtLeast("C08.R1", "sent OpeningTxBroadcastedMessage literals in functions calling Wallet.CreateOpeningTransaction", n, 1)
@@ -955,13 +1040,16 @@ func c08ParamsLiteral(open *ssa.Call) *ssa.Alloc {
 	return al
 }
 
-func c08Payreq(c *an.Check, fn *ssa.Function, msg *ssa.Alloc, v ssa.Value, open *ssa.Call, opens []ssa.CallInstruction) {
+func c08Payreq(c *an.Check, fn *ssa.Function, pos string, v ssa.Value, vst string, open *ssa.Call, opens []ssa.CallInstruction) {
 	w := c.W
 	fname := w.FuncName(fn)
-	pos := w.Pos(msg.Pos())
 	cons := fname + " message.Payreq"
-	if v == nil {
+	if vst == "unset" {
 		c.Bad("C08.R3", cons, pos, "the message literal leaves Payreq unset")
+		return
+	}
+	if v == nil {
+		c.Unknown("C08.R3", cons, pos, vst)
 		return
 	}
 	ss := w.Sources(v, an.FlowOpts{})
@@ -976,9 +1064,23 @@ func c08Payreq(c *an.Check, fn *ssa.Function, msg *ssa.Alloc, v ssa.Value, open 
 			good = false
 		}
 	}
-	if !c.Decide(good, "C08.R3", cons, pos, "Payreq is the invoice returned by LightningClient.GetPayreq", fmt.Sprintf("Payreq must be the invoice created by GetPayreq but flows from %v", ss.Names())) {
+	if !good {
+		opaque := len(ss.Leaves) == 0
+		for _, l := range ss.Leaves {
+			switch l.Kind {
+			case "call", "const", "zero", "field", "alloc":
+			default:
+				opaque = true
+			}
+		}
+		if opaque {
+			c.Unknown("C08.R3", cons, pos, fmt.Sprintf("cannot follow Payreq back to GetPayreq: %v", ss.Names()))
+		} else {
+			c.Bad("C08.R3", cons, pos, fmt.Sprintf("Payreq must be the invoice created by GetPayreq but flows from %v", ss.Names()))
+		}
 		return
 	}
+	c.OK("C08.R3", cons, pos, "Payreq is the invoice returned by LightningClient.GetPayreq")
 	args := gp.Call.Args
 	if len(args) != 7 {
 		c.Anchor("LightningClient.GetPayreq no longer has 7 parameters")
@@ -1010,6 +1112,8 @@ func c08Payreq(c *an.Check, fn *ssa.Function, msg *ssa.Alloc, v ssa.Value, open 
 			switch {
 			case !isK || !isCall:
 				c.Unknown("C08.R3", cons, gpos, "amount argument is not <getter call> * <constant>: "+w.Term(args[0]))
+			case w.Info(call).Name != "func:(*swap.SwapData).GetClaimAmount" && call.Call.StaticCallee() != nil && w.InModule(call.Call.StaticCallee()) && w.Summary(call.Call.StaticCallee()).HasEffect("func:(*swap.SwapData).GetClaimAmount"):
+				c.Unknown("C08.R3", cons, gpos, "the invoice amount comes from "+w.Info(call).Name+", a helper around GetClaimAmount(); not followed")
 			case w.Info(call).Name != "func:(*swap.SwapData).GetClaimAmount":
 				c.Bad("C08.R3", cons, gpos, "the invoice amount is computed from "+w.Info(call).Name+", not from GetClaimAmount(): the maker invoices something else than the agreed claim amount")
 			case k != 1000:
@@ -1030,6 +1134,8 @@ func c08Payreq(c *an.Check, fn *ssa.Function, msg *ssa.Alloc, v ssa.Value, open 
 		switch {
 		case !ok:
 			c.Unknown("C08.R3", cons, gpos, "argument is not a direct getter call: "+w.Term(args[a.i]))
+		case w.Info(call).Name != a.getter && call.Call.StaticCallee() != nil && w.InModule(call.Call.StaticCallee()) && w.Summary(call.Call.StaticCallee()).HasEffect(a.getter):
+			c.Unknown("C08.R3", cons, gpos, "argument comes from "+w.Info(call).Name+", a helper around "+strings.TrimPrefix(a.getter, "func:")+"; not followed")
 		case w.Info(call).Name != a.getter:
 			c.Bad("C08.R3", cons, gpos, fmt.Sprintf("argument #%d (%s) of GetPayreq must come from %s but comes from %s (swapped or wrong getter)", a.i, a.what, strings.TrimPrefix(a.getter, "func:"), w.Info(call).Name))
 		case !sameRecv(call.Call.Args[0]):
@@ -1109,12 +1215,15 @@ func c08Payreq(c *an.Check, fn *ssa.Function, msg *ssa.Alloc, v ssa.Value, open 
 	}
 }
 
-func c08Blinding(c *an.Check, fn *ssa.Function, msg *ssa.Alloc, v ssa.Value, open *ssa.Call, opens []ssa.CallInstruction) {
+func c08Blinding(c *an.Check, fn *ssa.Function, pos string, v ssa.Value, vst string, open *ssa.Call, opens []ssa.CallInstruction) {
 	w := c.W
 	cons := w.FuncName(fn) + " message.BlindingKey"
-	pos := w.Pos(msg.Pos())
-	if v == nil {
+	if vst == "unset" {
 		c.Bad("C08.R4", cons, pos, "the message literal leaves BlindingKey unset: a Liquid taker cannot unblind the output")
+		return
+	}
+	if v == nil {
+		c.Unknown("C08.R4", cons, pos, vst)
 		return
 	}
 	pl := c08ParamsLiteral(c08OpenCall(open, opens))
@@ -1142,8 +1251,13 @@ func c08Blinding(c *an.Check, fn *ssa.Function, msg *ssa.Alloc, v ssa.Value, ope
 	}
 	hexed := false
 	for x := range sl {
-		if cc, ok := x.(*ssa.Call); ok && w.Info(cc).Name == "func:encoding/hex.EncodeToString" {
-			hexed = true
+		if cc, ok := x.(*ssa.Call); ok {
+			ci := w.Info(cc)
+			if ci.Name == "func:encoding/hex.EncodeToString" {
+				hexed = true
+			} else if ci.Static != nil && w.InModule(ci.Static) && w.Summary(ci.Static).HasEffect("func:encoding/hex.EncodeToString") {
+				hexed = true // a hex helper of the module
+			}
 		}
 	}
 	same := nonNil > 0 && allIn && hexed
@@ -1159,6 +1273,7 @@ func c08Blinding(c *an.Check, fn *ssa.Function, msg *ssa.Alloc, v ssa.Value, ope
 			}
 		}
 		o := an.FlowOpts{IntoCallees: true, ThroughCalls: through, FieldsThroughWriters: map[string]bool{"OpeningParams.BlindingKey": true}}
+		opaque := false
 		fields := func(x ssa.Value) map[string]bool {
 			m := map[string]bool{}
 			for _, l := range w.Sources(x, o).Leaves {
@@ -1166,6 +1281,9 @@ func c08Blinding(c *an.Check, fn *ssa.Function, msg *ssa.Alloc, v ssa.Value, ope
 					m[l.Name] = true
 				} else if l.Kind != "const" && l.Kind != "zero" {
 					m[l.String()] = true
+					if l.Kind != "call" {
+						opaque = true
+					}
 				}
 			}
 			return m
@@ -1176,6 +1294,10 @@ func c08Blinding(c *an.Check, fn *ssa.Function, msg *ssa.Alloc, v ssa.Value, ope
 			if !pf[k] {
 				sub = false
 			}
+		}
+		if !sub && opaque {
+			c.Unknown("C08.R4", cons, pos, fmt.Sprintf("cannot follow the announced blinding key (%v) / the key of the output (%v) back to their origin", sortedKeys(mf), sortedKeys(pf)))
+			return
 		}
 		if !sub {
 			c.Bad("C08.R4", cons, pos, fmt.Sprintf("the announced blinding key flows from %v, the key that blinds the opening output from %v: the taker cannot unblind the output it is asked to pay for", sortedKeys(mf), sortedKeys(pf)))
@@ -1297,7 +1419,25 @@ func c08ImplVout(c *an.Check, fn *ssa.Function) {
 						}
 					}
 				}
+				hidden := false
+				if !guarded && len(edges) == 0 {
+					// a predicate helper applied to the element may hide the comparison
+					for _, cc := range an.Calls(o.Fn) {
+						ci := w.Info(cc)
+						if ci.Static == nil || !w.InModule(ci.Static) {
+							continue
+						}
+						sl := c08Slice(cc.Common().Args...)
+						for ev := range loop.elems {
+							if sl[ev] {
+								hidden = true
+							}
+						}
+					}
+				}
 				switch {
+				case hidden:
+					c.Unknown("C08.R2", cons, pos, "the loop that selects the vout tests its element through an in-module helper; the comparison inside is not followed")
 				case !guarded:
 					c.Bad("C08.R2", cons, pos, "the vout is the index of a loop over outputs that is not selected under a script comparison (bytes.Equal / bytes.Compare on the element)")
 				case !fromParams:
@@ -1309,8 +1449,17 @@ func c08ImplVout(c *an.Check, fn *ssa.Function) {
 				}
 			case "call":
 				c.Unknown("C08.R2", cons, pos, "the vout comes from "+o.Text+" which is outside the module and not in the table of output locators; cannot decide whether it locates the swap output")
-			default:
+			case "param":
 				c.Bad("C08.R2", cons, pos, fmt.Sprintf("the vout returned on success comes from %s %s, not from an output locator applied to the broadcast transaction", o.Kind, o.Text))
+			case "field":
+				_, root := w.FieldChain(o.V)
+				if _, isParam := root.(*ssa.Parameter); isParam {
+					c.Bad("C08.R2", cons, pos, fmt.Sprintf("the vout returned on success is read from %s of an argument, not located in the broadcast transaction", o.Text))
+				} else {
+					c.Unknown("C08.R2", cons, pos, fmt.Sprintf("the vout returned on success is read from field %s of %s; cannot decide whether that is the index of the swap output", o.Text, w.Term(root)))
+				}
+			default:
+				c.Unknown("C08.R2", cons, pos, fmt.Sprintf("the vout returned on success is %s %s; its origin is not understood", o.Kind, o.Text))
 			}
 		}
 		for _, p := range ev.pruned {
@@ -1435,6 +1584,31 @@ func c08InvoiceConstants(c *an.Check) {
 				vals = append(vals, cv{r.Results[0], r.Block(), nil})
 			}
 			for _, x := range vals {
+				// table form: <package-level constant map>[GetChain()]
+				if tbl, why, isTable := c08ChainTable(w, x.v); isTable {
+					if tbl == nil {
+						c.Unknown("C08.R3", "(*swap.SwapData).GetInvoiceExpiry table", w.Pos(r.Pos()), why)
+						continue
+					}
+					for ch, k := range tbl {
+						cons := "(*swap.SwapData).GetInvoiceExpiry " + ch
+						if _, known := want[ch]; !known {
+							if k != 0 {
+								c.Unknown("C08.R3", cons, w.Pos(r.Pos()), fmt.Sprintf("expiry %d for a chain name other than btc/lbtc", k))
+							}
+							continue
+						}
+						seen[ch] = true
+						c.Decide(k == want[ch], "C08.R3", cons, w.Pos(r.Pos()), fmt.Sprintf("expiry %d s (table entry)", k), fmt.Sprintf("claim invoice expiry for %s is %d s, the protocol value is %d s", ch, k, want[ch]))
+					}
+					for ch := range want {
+						if _, has := tbl[ch]; !has {
+							seen[ch] = true
+							c.Bad("C08.R3", "(*swap.SwapData).GetInvoiceExpiry "+ch, w.Pos(r.Pos()), fmt.Sprintf("the expiry table has no entry for %s: the claim invoice expires immediately (0 s), the protocol value is %d s", ch, want[ch]))
+						}
+					}
+					continue
+				}
 				ch := chainOf(x.b, x.p)
 				k, isK := an.ConstInt(x.v)
 				cons := "(*swap.SwapData).GetInvoiceExpiry " + ch
@@ -1507,4 +1681,106 @@ func c08InvoiceConstants(c *an.Check) {
 		c.Decide(k == want[ch], "C08.R3", cons, w.Pos(r.Pos()), fmt.Sprintf("final CLTV %d", k), fmt.Sprintf("claim invoice final CLTV for %s is %d, the protocol value is %d", ch, k, want[ch]))
 	}
 	c.AtLeast("C08.R3", "per-chain InvoiceFinalCLTV constants", len(seen), 2)
+}
+
+// c08ChainTable recognises `table[s.GetChain()]` where table is a package-level
+// map variable that is initialised once, in the package initialiser, from a map
+// literal with constant string keys and constant integer values, and is never
+// written, updated or handed out anywhere else. isTable reports that v has the
+// lookup shape; tbl == nil then means the table could not be evaluated (why).
+func c08ChainTable(w *an.World, v ssa.Value) (tbl map[string]int64, why string, isTable bool) {
+	v = c08Strip(v)
+	if ex, ok := v.(*ssa.Extract); ok {
+		if lk, ok := ex.Tuple.(*ssa.Lookup); ok && ex.Index == 0 {
+			v = lk
+		}
+	}
+	lk, ok := v.(*ssa.Lookup)
+	if !ok {
+		return nil, "", false
+	}
+	ld, ok := lk.X.(*ssa.UnOp)
+	if !ok || ld.Op != token.MUL {
+		return nil, "", false
+	}
+	g, ok := ld.X.(*ssa.Global)
+	if !ok {
+		return nil, "", false
+	}
+	if _, isMap := g.Type().(*types.Pointer).Elem().Underlying().(*types.Map); !isMap {
+		return nil, "", false
+	}
+	if !strings.Contains(w.Term(lk.Index), "SwapData).GetChain") {
+		return nil, "the table is not indexed by GetChain(): " + w.Term(lk.Index), true
+	}
+	// every use of the global in the module
+	var initMap ssa.Value
+	for fn := range w.AllFuncs() {
+		if fn.Blocks == nil || !w.InModule(fn) {
+			continue
+		}
+		isInit := fn.Synthetic != "" && fn.Name() == "init" && fn.Pkg == g.Pkg
+		for _, b := range fn.Blocks {
+			for _, in := range b.Instrs {
+				for _, op := range in.Operands(nil) {
+					if op == nil || *op != ssa.Value(g) {
+						continue
+					}
+					switch x := in.(type) {
+					case *ssa.Store:
+						if x.Addr != ssa.Value(g) || !isInit || initMap != nil {
+							return nil, "the table " + g.Name() + " is assigned outside its initialiser (" + w.Pos(in.Pos()) + ")", true
+						}
+						initMap = x.Val
+					case *ssa.UnOp:
+						if x.Op != token.MUL {
+							return nil, "the address of the table " + g.Name() + " is used at " + w.Pos(in.Pos()), true
+						}
+						// the loaded map may only be read
+						if x.Referrers() != nil {
+							for _, r := range *x.Referrers() {
+								switch r.(type) {
+								case *ssa.Lookup, *ssa.Range, *ssa.DebugRef:
+								case ssa.CallInstruction:
+									if cc := r.(ssa.CallInstruction); !strings.HasPrefix(w.Info(cc).Name, "builtin:len") {
+										return nil, "the table " + g.Name() + " is handed to " + w.Info(cc).Name + " at " + w.Pos(r.Pos()), true
+									}
+								default:
+									return nil, "the table " + g.Name() + " is used in a way that may modify it at " + w.Pos(r.Pos()), true
+								}
+							}
+						}
+					default:
+						return nil, "the address of the table " + g.Name() + " is used at " + w.Pos(in.Pos()), true
+					}
+				}
+			}
+		}
+	}
+	mm, ok := initMap.(*ssa.MakeMap)
+	if !ok {
+		return nil, "the table " + g.Name() + " is not initialised from a map literal", true
+	}
+	tbl = map[string]int64{}
+	if mm.Referrers() != nil {
+		for _, r := range *mm.Referrers() {
+			switch x := r.(type) {
+			case *ssa.MapUpdate:
+				ks, okk := an.ConstString(x.Key)
+				kv, okv := an.ConstInt(x.Value)
+				if !okk || !okv {
+					return nil, "the table " + g.Name() + " has a non-constant entry", true
+				}
+				tbl[ks] = kv
+			case *ssa.Store:
+				if x.Val != ssa.Value(mm) || x.Addr != ssa.Value(g) {
+					return nil, "the map literal of " + g.Name() + " escapes", true
+				}
+			case *ssa.DebugRef:
+			default:
+				return nil, "the map literal of " + g.Name() + " is used besides initialising the table", true
+			}
+		}
+	}
+	return tbl, "", true
 }
